@@ -15,7 +15,7 @@ from pytestarch import LayeredArchitecture, LayerRule  # noqa: E402
 ID = "C16"
 RULE = (
     "(a) breadth-first search over all call histories of the real LayeredArchitecture builder "
-    "(alphabet: layer(L1|L2|L3), containing_modules(str) and (list of 1-2 distinct names) over "
+    "(alphabet: layer(L1|L2|L3), containing_modules(str) and (list of 0-2 distinct names) over "
     "{mod_one, one_mod, o}, have_modules_with_names_matching(rx1 | a regex spelled like the module name mod_one), with_layer()), deduplicated "
     "on (full attribute snapshot, specification state) and run to the fixpoint; (b) the same for "
     "LayerRule over its 15 fluent methods, depth-bounded; (c) TLA+ model of (a) explored by TLC "
@@ -26,7 +26,7 @@ RULE = (
 )
 ASSUMPTIONS = [
     "module names mod_one / one_mod / o are multi-character resp. share characters, so treating a string as a set of characters is observable",
-    "lists passed to containing_modules contain distinct names; the empty list and duplicate names inside one list are outside the property",
+    "lists passed to containing_modules contain distinct names; duplicate names inside one list are outside the property; an empty list may be rejected or accepted, but supplies no modules: the layer it was given to is still waiting for its modules",
     "calls the property does not mention (modules without an open layer, second based_on, object-side repetitions) are don't-care: followed only when the implementation rejects them",
     "a rejected call must raise ImproperlyConfigured (the library's configuration error)",
 ]
@@ -41,6 +41,7 @@ REGEXES = ("rx1", "mod_one")  # one regex is spelled exactly like a module name
 def la_actions():
     acts = [("layer", l) for l in LAYERS]
     acts += [("cm_str", m) for m in MODS]
+    acts += [("cm_list", ())]  # an empty list supplies no modules
     acts += [("cm_list", (m,)) for m in MODS]
     acts += [("cm_list", p) for p in itertools.permutations(MODS, 2)]
     acts += [("regex", r) for r in REGEXES]
@@ -124,6 +125,10 @@ def la_spec_step(st, action):
         ms = (action[1],) if kind == "cm_str" else tuple(action[1])
         if not pending:
             return DONT, st, None
+        if not ms:
+            # the call itself is not covered by the statement (it may be rejected); if it is accepted the layer has
+            # still not received any modules, so it stays open: the next layer(...) must be rejected
+            return FREE, st, None
         assigned = {m for _, c in st if c and c[0] == "names" for m in c[1]}
         # a name spelled exactly like the regex of an earlier layer would belong to both layers
         assigned |= {c[1] for _, c in st if c and c[0] == "regex"}
